@@ -575,6 +575,13 @@ def c20(ctx):
                                        "want": "no data race between goroutines using independent objects",
                                        "got": "the race detector reported a race", "detail": err[max(0, i - 50):i + 3000]})
                 continue
+            if "PHASE concurrent" in err and ("panic:" in err or "fatal error" in err):
+                i = err.index("PHASE concurrent")
+                j = min([k for k in (err.find("panic:", i), err.find("fatal error", i)) if k >= 0])
+                ctx.mismatches.append({"property": "C20", "sig": "concurrent-crash:" + err[j:j + 160].replace("\n", " "),
+                                       "want": "each goroutine gets the results it got running alone (the same sequences completed alone in this process)",
+                                       "got": "the process died while the goroutines ran together", "detail": err[j:j + 2500]})
+                continue
             raise Infra("v-conc failed:\n%s" % err[-3000:])
         files = {"trace.ndjson": open(t, "rb").read()}
         r = ctx.tlc("PoolsTrace", files=files, workers=1, label="pool trace", check=False)
